@@ -113,6 +113,39 @@ Match(tok, l, ms, D) ==
      [] tok = "#Other" -> Other(l, ms)
      [] OTHER -> NoTok        \* #Language and #EOF are handled by the parser specification
 
+
+\* ---------------------------------------------------------------- the token listing (TokenFormatterBuilder)
+\* names as code points (TLC strings are not sequences)
+NameCps == [
+   EOF |-> <<69, 79, 70>>,
+   Empty |-> <<69, 109, 112, 116, 121>>,
+   Comment |-> <<67, 111, 109, 109, 101, 110, 116>>,
+   TagLine |-> <<84, 97, 103, 76, 105, 110, 101>>,
+   FeatureLine |-> <<70, 101, 97, 116, 117, 114, 101, 76, 105, 110, 101>>,
+   RuleLine |-> <<82, 117, 108, 101, 76, 105, 110, 101>>,
+   BackgroundLine |-> <<66, 97, 99, 107, 103, 114, 111, 117, 110, 100, 76, 105, 110, 101>>,
+   ScenarioLine |-> <<83, 99, 101, 110, 97, 114, 105, 111, 76, 105, 110, 101>>,
+   ExamplesLine |-> <<69, 120, 97, 109, 112, 108, 101, 115, 76, 105, 110, 101>>,
+   StepLine |-> <<83, 116, 101, 112, 76, 105, 110, 101>>,
+   DocStringSeparator |-> <<68, 111, 99, 83, 116, 114, 105, 110, 103, 83, 101, 112, 97, 114, 97, 116, 111, 114>>,
+   TableRow |-> <<84, 97, 98, 108, 101, 82, 111, 119>>,
+   Language |-> <<76, 97, 110, 103, 117, 97, 103, 101>>,
+   Other |-> <<79, 116, 104, 101, 114>>,
+   Context |-> <<67, 111, 110, 116, 101, 120, 116>>,
+   Action |-> <<65, 99, 116, 105, 111, 110>>,
+   Outcome |-> <<79, 117, 116, 99, 111, 109, 101>>,
+   Conjunction |-> <<67, 111, 110, 106, 117, 110, 99, 116, 105, 111, 110>>,
+   Unknown |-> <<85, 110, 107, 110, 111, 119, 110>> ]
+RECURSIVE Digits(_)
+Digits(n) == IF n < 10 THEN <<48 + n>> ELSE Digits(n \div 10) \o <<48 + (n % 10)>>
+\* "(line:col)Type:(kwtype)keyword/text/col:item,col:item" -- "EOF" for the end-of-file token
+FormatToken(t) ==
+   IF t.type = "EOF" THEN NameCps["EOF"]
+   ELSE <<40>> \o Digits(t.line) \o <<58>> \o Digits(t.col) \o <<41>> \o NameCps[t.type] \o <<58>>
+        \o (IF t.kw # <<>> THEN <<40>> \o (IF t.kwt = "" THEN <<>> ELSE NameCps[t.kwt]) \o <<41>> \o t.kw ELSE <<>>)
+        \o <<47>> \o t.text \o <<47>>
+        \o JoinWith([j \in 1..Len(t.items) |-> Digits(t.items[j].col) \o <<58>> \o t.items[j].text], <<44>>)
+
 EofTok == Tok("EOF", 0, <<>>, "", <<>>, 1, <<>>)
 InitMatcher(default) == [dia |-> default, sep |-> <<>>, ind |-> 0]
 =============================================================================
